@@ -480,6 +480,17 @@ func selfTestOPC() error {
 			m["_rels/.rels"] = strings.Replace(m["_rels/.rels"], `xmlns="http://schemas.openxmlformats.org/package/2006/relationships"`, `xmlns=""`, 1)
 		}, (*opc.Package).CheckC01, "main-part/not-the-relationships-vocabulary"},
 	}
+	bads = append(bads,
+		bad{"second XML declaration behind a byte order mark", func(m map[string]string) {
+			m["word/document.xml"] = `<?xml version="1.0" encoding="UTF-8" standalone="yes"?>` + "\n\ufeff" + m["word/document.xml"]
+		}, (*opc.Package).CheckC01, "xml-wellformed"},
+		bad{"XML declaration after a comment", func(m map[string]string) {
+			m["word/document.xml"] = "<!-- x -->" + m["word/document.xml"]
+		}, (*opc.Package).CheckC01, "xml-wellformed"})
+	// a byte order mark at the very start of a part is legal
+	if pr := opc.Read(gen.MinimalPackage(func(m map[string]string) { m["word/document.xml"] = "\ufeff" + m["word/document.xml"] })).CheckC01(); len(pr) != 0 {
+		return fmt.Errorf("golden package with a byte order mark rejected: %+v", pr[0])
+	}
 	for _, b := range bads {
 		pk := opc.Read(gen.MinimalPackage(b.mut))
 		found := false
